@@ -103,12 +103,27 @@ def _evaluate(case):
                     continue
                 try:
                     opt = tail.optimize()
-                    res = core.run(opt.expr)
+                    low = opt.expr.lower_completely()
+                    parts = core.run_parts(low, lower=False)
+                    res = core.assemble(parts, low)
                 except CaseTimeout:
                     raise
                 except Exception as e:  # noqa: BLE001
                     viols.append({"kind": f"cut_result_raises:{kind}:{exc_kind(e)}", "detail": f"cut after {ops[:k]} then {ops[k:]}: {short(e)}"})
                     continue
+                # the partition structure the continued plan reports must be truthful (divisions sorted, partitions inside them)
+                if O.kind_of(tail) in ("df", "s", "idx") and not any("nested" in O.OPS[o].tags for o in ops):
+                    sp = walker.check_structure(low, parts, None if len(parts) == opt.npartitions else f"{len(parts)} partitions, {opt.npartitions} reported")
+                    for p_ in sp[:1]:
+                        # only when the uncut plan does not have the same problem (that would be C06's subject)
+                        try:
+                            bopt = q.optimize()
+                            if not walker.check_structure(bopt.expr, core.run_parts(bopt.expr), None):
+                                viols.append({"kind": f"continued_structure:{kind}", "detail": f"cut after {ops[:k]} then {ops[k:]}: {p_}"})
+                        except CaseTimeout:
+                            raise
+                        except Exception:  # noqa: BLE001
+                            pass
                 if walker._names(tail._meta) != walker._names(q._meta):
                     viols.append({"kind": f"final_schema:{kind}", "detail": f"cut at {k}: {walker._names(tail._meta)} != {walker._names(q._meta)}"})
                 psens_later = any(("psens" in O.OPS[o].tags) or O.OPS[o].name in ("head3", "tail3", "loc_slice") for o in ops[k:])
